@@ -50,12 +50,12 @@ func (C19) Runs(tier string) int {
 func (C19) Meta() core.Meta {
 	return core.Meta{
 		Level: "exploration",
-		Rule: "a case = history of 2..6 Decrypt calls on ONE agessh.EncryptedSSHIdentity value (ed25519 in OpenSSH format or RSA in legacy PEM; PEM holding the declared key A or another key B) over reference-written files whose stanza lists address A, B and unrelated keys of the same and of other types in any order; the passphrase callback answers right/wrong/error per plan and counts invocations. Every call's result class (plaintext / no-match / fatal error), plaintext and prompt count must equal the model {validated: bool}. Non-trivial = history contains a prompt; distinct = distinct (type, holds, history skeleton).",
+		Rule: "a case = history of 2..6 Decrypt calls on ONE agessh.EncryptedSSHIdentity value (ed25519 in OpenSSH format or RSA in legacy PEM; PEM holding the declared key A or another key B) over reference-written files whose stanza lists address A, B and unrelated keys of the same and of other types in any order, optionally with one crafted stanza (other SSH type carrying A's tag, A's type and tag with a body that does not open, stanzas without arguments); the passphrase callback answers right/wrong/error per plan and counts invocations. Every call's result class (plaintext / no-match / fatal error), plaintext and prompt count must equal the model {validated: bool}. Non-trivial = history contains a prompt; distinct = distinct (type, holds, history skeleton).",
 		Assumptions: []string{"fixture keys generated once with ssh-keygen -a 1 (cheap KDF) and committed; stanzas of the identity's type always carry a tag argument"},
 		Real:        []string{"agessh.EncryptedSSHIdentity", "agessh Ed25519/RSA identities", "x/crypto/ssh key parsing", "filippo.io/age Decrypt"},
 		Stub:        []string{"passphrase callback", "files (reference writer)", "source"},
 		FaultKinds:  []string{"fault.passphrase_wrong", "fault.passphrase_error", "fault.mismatched_private_key"},
-		Probes:      []string{"probe.prompted", "probe.no_prompt_no_match", "probe.validated_then_reused", "probe.after_mismatch_file_to_B", "probe.after_mismatch_same_file", "probe.after_wrong_then_right", "probe.match_not_first_stanza", "probe.same_type_other_tag"},
+		Probes:      []string{"probe.prompted", "probe.no_prompt_no_match", "probe.validated_then_reused", "probe.after_mismatch_file_to_B", "probe.after_mismatch_same_file", "probe.after_wrong_then_right", "probe.match_not_first_stanza", "probe.same_type_other_tag", "probe.crafted_other_type_same_tag", "probe.crafted_same_tag_bad_body"},
 	}
 }
 
@@ -104,6 +104,12 @@ func (C19) Generate(r *core.RNG, tier string, idx uint64) interface{} {
 			default:
 				cl.Stanzas = append(cl.Stanzas, "B")
 			}
+		}
+		if r.Chance(1, 4) {
+			// a crafted stanza (the header MAC is only checked after an identity produced a file key)
+			crafted := []string{"A~other", "A~other", "A~bad", "my-noargs", "other-noargs"}[r.Intn(5)]
+			at := r.Intn(len(cl.Stanzas) + 1)
+			cl.Stanzas = append(cl.Stanzas[:at:at], append([]string{crafted}, cl.Stanzas[at:]...)...)
 		}
 		p.Calls = append(p.Calls, cl)
 	}
@@ -211,9 +217,27 @@ func (e C19) Execute(plan interface{}, c *core.Ctx) *core.Verdict {
 	for ci, cl := range p.Calls {
 		rng := core.NewRNG(cl.FSeed)
 		f := &ref.File{FileKey: rng.Bytes(16), Nonce: rng.Bytes(16), Plain: core.Pattern(cl.FSeed, 40)}
-		toA, match := false, false
+		otherType := "ssh-rsa"
+		if p.Type == "rsa" {
+			otherType = "ssh-ed25519"
+		}
+		var tagA string
+		if p.Type == "ed" {
+			tagA = ref.SSHTag(ref.WireEd25519(ks.edA.Public().(ed25519.PublicKey)))
+		} else {
+			tagA = ref.SSHTag(ref.WireRSA(&ks.rsaA.PublicKey))
+		}
+		// per stanza, what the identity's own rules make of it
+		type view struct {
+			mine   bool // stanza of the identity's key type
+			noargs bool
+			tagA   bool // carries the declared key's tag
+			opens  bool // honestly wrapped to A
+		}
+		var views []view
 		for si, who := range cl.Stanzas {
 			var st *ref.Stanza
+			vw := view{}
 			mk := func(t string, k int) *ref.Stanza {
 				switch t {
 				case "e":
@@ -239,34 +263,97 @@ func (e C19) Execute(plan interface{}, c *core.Ctx) *core.Verdict {
 					}
 					st, _ = ref.WrapSSHRSA(f.FileKey, bytes.NewReader(rng.Bytes(2048)), &key.PublicKey)
 				}
+				vw.mine = true
 				if who == "A" {
-					toA = true
-					match = true
+					vw.tagA, vw.opens = true, true
 					if si > 0 {
 						c.Stats.Inc("probe.match_not_first_stanza")
 					}
 				}
+			case "A~other":
+				// a stanza of the OTHER ssh type that carries the declared key's tag
+				st = &ref.Stanza{Type: otherType, Args: []string{tagA}, Body: rng.Bytes(32)}
+				if otherType == "ssh-ed25519" {
+					st.Args = append(st.Args, ref.B64(ref.X25519Public(rng.Bytes(32))))
+				}
+				c.Stats.Inc("probe.crafted_other_type_same_tag")
+			case "A~bad":
+				// the identity's type and tag, but a body that does not open
+				st = &ref.Stanza{Type: myType, Args: []string{tagA}, Body: rng.Bytes(32)}
+				if p.Type == "ed" {
+					st.Args = append(st.Args, ref.B64(ref.X25519Public(rng.Bytes(32))))
+				} else {
+					st.Body = rng.Bytes(256)
+					st.Body[0] = 0
+				}
+				vw.mine, vw.tagA = true, true
+				c.Stats.Inc("probe.crafted_same_tag_bad_body")
+			case "my-noargs":
+				st = &ref.Stanza{Type: myType, Body: rng.Bytes(32)}
+				vw.mine, vw.noargs = true, true
+			case "other-noargs":
+				st = &ref.Stanza{Type: otherType, Body: rng.Bytes(32)}
 			default:
 				var k int
 				fmt.Sscanf(who[1:], "%d", &k)
 				st = mk(who[:1], k)
 				if st.Type == myType {
+					vw.mine = true
 					c.Stats.Inc("probe.same_type_other_tag")
 				}
 			}
 			f.Stanzas = append(f.Stanzas, st)
+			views = append(views, vw)
 		}
 		img := f.Encode()
-		// model
+		// model of the plain (decrypted) identity over the stanza list
+		plain := func() string {
+			for _, vw := range views {
+				if !vw.mine {
+					continue
+				}
+				if vw.noargs {
+					return "fatal"
+				}
+				if !vw.tagA {
+					continue
+				}
+				if vw.opens {
+					return "ok"
+				}
+				return "fatal"
+			}
+			return "nomatch"
+		}
+		// model of the match scan of the encrypted identity
+		scan := func() string {
+			for _, vw := range views {
+				if !vw.mine {
+					continue
+				}
+				if vw.noargs {
+					return "fatal"
+				}
+				if vw.tagA {
+					return "match"
+				}
+			}
+			return "nomatch"
+		}
+		toA := false
+		for _, vw := range views {
+			if vw.opens {
+				toA = true
+			}
+		}
+		match := scan() == "match"
 		wantPrompts := 0
 		var wantClass string
 		switch {
 		case validated:
-			if toA {
-				wantClass = "ok"
-			} else {
-				wantClass = "nomatch"
-			}
+			wantClass = plain()
+		case scan() == "fatal":
+			wantClass = "fatal"
 		case !match:
 			wantClass = "nomatch"
 		default:
@@ -278,7 +365,7 @@ func (e C19) Execute(plan interface{}, c *core.Ctx) *core.Verdict {
 				wantClass = "fatal"
 			default:
 				validated = true
-				wantClass = "ok"
+				wantClass = plain()
 			}
 		}
 		// probes for history shapes (before running the call)
